@@ -307,18 +307,27 @@ class CFG:
                     stack.append(b)
         return seen
 
-    def path_conditions(self, srcs, targets, avoid=(), labels=None, limit=4000):
+    def path_conditions(self, srcs, targets, avoid=(), labels=None, limit=4000, with_nodes=False):
         """Branch conditions [(test expr, polarity)] of every acyclic path from srcs to any
-        of targets that does not pass through ``avoid``.  None if there are too many paths."""
+        of targets that does not pass through ``avoid``.  None if there are too many paths.
+        with_nodes: return (conditions, [nodes on the path in order]) pairs."""
         targets, avoid = set(targets), set(avoid)
         out = []
         count = [0]
+        trail = []
 
         def dfs(n, conds, on_path):
             if count[0] > limit:
                 return
+            trail.append(n)
+            try:
+                _dfs(n, conds, on_path)
+            finally:
+                trail.pop()
+
+        def _dfs(n, conds, on_path):
             if n in targets:
-                out.append(list(conds))
+                out.append((list(conds), list(trail)) if with_nodes else list(conds))
                 count[0] += 1
                 return
             for b, l in self.succ[n]:
